@@ -7,6 +7,7 @@ import FR.Generated.Mech
 proved equal to the statement-by-statement translation of `fakeredis/_commands.py:CommandItem` and
 `fakeredis/_helpers.py:Database.expired` regenerated on every run.
 -/
+set_option linter.unusedSimpArgs false
 namespace FR.Bridge
 open FR
 
@@ -31,26 +32,36 @@ theorem mech_truthy_eq : Generated.Mech.truthy = CI.truthy := by
 theorem mech_expired_eq : Generated.Mech.expired = Db.expired := by
   funext db it; rfl
 
+/-- `key in db` in terms of the lazy lookup -/
+theorem contains_eq (db : Db) (k : Bytes) : Mech.contains db k = ((db.get k).1, (db.get k).2.isSome) := by
+  unfold Mech.contains
+  split <;> simp_all
+
+/-- the deadline-only branch of the model, in terms of the two idioms the translation uses -/
+theorem deadline_branch (db : Db) (k : Bytes) (e : Option Int) :
+    (match db.get k with
+      | (db', some it) => (({ db' with dict := Db.setRaw db'.dict k { it with expireat := e } } : Db), false)
+      | (db', none) => (db', false)) =
+    (match Mech.contains db k with
+      | (db', true) => (Mech.setDeadline db' k e, false)
+      | (db', false) => (db', false)) := by
+  unfold Mech.contains Mech.setDeadline Db.get
+  rcases hl : db.dict.lookup k with _ | it
+  · simp
+  · by_cases hx : db.expired it = true
+    · simp [hx]
+    · have hx' : db.expired it = false := by simpa using hx
+      simp [hx', hl]
+
+/-- The proof does not follow the shape of the generated text: it splits on the two flags and on the stored value, and
+normalises both sides, so that an equivalent restructuring of `writeback` (guard clauses, `if self:`, swapped branches)
+keeps the bridge. -/
 theorem mech_writeback_eq : Generated.Mech.writeback = CI.writeback := by
   funext c db
-  unfold Generated.Mech.writeback CI.writeback
-  by_cases hm : c.modified = true
-  · simp only [hm, ↓reduceIte]
-    rcases h : c.val with _ | v
-    · simp [Mech.isBytes, Mech.pyTruth]
-    · cases v <;> simp [Mech.isBytes, Mech.pyTruth, Mech.store, Value.isEmptyColl]
-  · have hm' : c.modified = false := by simpa using hm
-    simp only [hm', Bool.false_eq_true, ↓reduceIte]
-    by_cases he : c.expMod = true
-    · simp only [he, ↓reduceIte, Mech.contains, Mech.setDeadline]
-      unfold Db.get
-      rcases hl : db.dict.lookup c.key with _ | it
-      · simp
-      · by_cases hx : db.expired it = true
-        · simp [hx]
-        · have hx' : db.expired it = false := by simpa using hx
-          simp [hx', hl]
-    · have he' : c.expMod = false := by simpa using he
-      simp [he']
+  rcases c with ⟨key, val, expireat, modified, expMod⟩
+  have hd := deadline_branch db key expireat
+  cases modified <;> cases expMod <;> rcases val with _ | v <;> (try cases v) <;>
+    simp [Generated.Mech.writeback, Generated.Mech.truthy, CI.writeback, Mech.isBytes, Mech.pyTruth, Mech.store, Value.isEmptyColl] <;>
+    (try first | exact hd.symm | exact hd)
 
 end FR.Bridge
